@@ -29,6 +29,7 @@
     pgen.parse <info> <year> <century> <dayfirst -1|0|1> <yearfirst> <fuzzy> <fuzzy_with_tokens> <cps> <classes>     _parse
         -> N | year month day weekday hour minute second microsecond ampm tzname tzoffset cs ; tokens|-
     pgen.parsetail <same arguments as parser.parse>    `parser.parse` from the `_parse` call to the return, same answer format
+    pgen.recombine <tok;tok;…|E> <i,j,…|N>             _recombine_skipped -> [cps,cps,…]
     pgen.naive <year|-> <month|-> <day|-> <weekday|-> <hour|-> <minute|-> <second|-> <microsecond|-> <default [7 ints]>
                                                        _build_naive -> Y M D h m s us
     pgen.step <info> <year> <century> <fuzzy> <i> <tok;tok;…> <classes> <ymd> <hour|-> <ampm|-> <tzname|N> <tzoffset|->
@@ -222,6 +223,9 @@ def handleFn (op : String) (args : List String) : Option String :=
           Py.showR showResultA (Gen.P.parseTail (cs'.length + 1) (clsOfTable tbl) tzn inf cs' d (ig != 0) tzi (optBool? df) (optBool? yf)
             (fz != 0) (fwt != 0))
       | _, _, _, _, _, _, _ => none)
+  | "pgen.recombine", [toks, idxs] => do
+    let l ← toks? toks; let is ← (if idxs == "N" then some [] else natList? idxs)
+    some (showR showToks (Gen.P.recombineSkipped dflt l is))
   | "pgen.assigntz", [n0, n1, name] => do
     let a ← optName? n0; let b ← optName? n1; let n ← optName? name
     some (showR (fun d : PPy.FoldDt => toString d.fold) (Gen.P.assignTzname dflt { n0 := a, n1 := b } n))
